@@ -105,20 +105,33 @@ def check_op(c):
         except Exception as e:
             return [Disc(f"{c['op']}.foreign.{type(e).__name__}.{kind_of(a)}", f"{s}: {e!r}"[:400])]
         cmds = [r for r in tgt.commands if r["fnc"] in (0xA2, 0xAB)]
-        if len(cmds) != 1:
-            return [Disc(f"{c['op']}.commands", f"{s}: {len(cmds)} PCCC commands sent")]
+        if not cmds:
+            return [Disc(f"{c['op']}.commands", f"{s}: no PCCC command was sent")]
         r = cmds[0]
         want_fnc = 0xA2 if c["op"] == "read" else 0xAB
-        if r["fnc"] != want_fnc or "file_no" not in r:
-            return [Disc(f"{c['op']}.function", f"{s}: function {r['fnc']:#x}, body {r['body'].hex()}")]
+        for x in cmds:
+            if x["fnc"] != want_fnc or "file_no" not in x:
+                return [Disc(f"{c['op']}.function", f"{s}: function {x['fnc']:#x}, body {x['body'].hex()}")]
         is_bit = bit is not None
         want_size = es * count if not (is_bit and c["op"] == "write") else 2
-        got = (r["file_no"], r["file_type"], r["element"], r["sub"])
-        if got != (fno, code, elem, sub):
-            discs.append(Disc(f"{c['op']}.address.{kind_of(a)}", f"{s}: command addresses file {r['file_no']} type {r['file_type']:#x} element {r['element']} sub {r['sub']}; "
-                                                              f"reference parse: file {fno} type {code:#x} element {elem} sub {sub}"))
-        if r["size"] != want_size:
-            discs.append(Disc(f"{c['op']}.size.{kind_of(a)}", f"{s}: byte size {r['size']}, expected {want_size}"))
+        if len(cmds) == 1:
+            got = (r["file_no"], r["file_type"], r["element"], r["sub"])
+            if got != (fno, code, elem, sub):
+                discs.append(Disc(f"{c['op']}.address.{kind_of(a)}", f"{s}: command addresses file {r['file_no']} type {r['file_type']:#x} element {r['element']} sub {r['sub']}; "
+                                                                  f"reference parse: file {fno} type {code:#x} element {elem} sub {sub}"))
+            if r["size"] != want_size:
+                discs.append(Disc(f"{c['op']}.size.{kind_of(a)}", f"{s}: byte size {r['size']}, expected {want_size}"))
+        else:
+            # a {count} request may be carried by several commands: together they must cover exactly the addressed elements
+            covered = set()
+            for x in cmds:
+                if (x["file_no"], x["file_type"]) != (fno, code) or count == 1 or is_bit:
+                    discs.append(Disc(f"{c['op']}.address.{kind_of(a)}", f"{s}: one of {len(cmds)} commands addresses file {x['file_no']} type {x['file_type']:#x} element {x['element']} sub {x['sub']}"))
+                o = offset(code, x["element"], x["sub"])
+                covered |= set(range(o, o + x["size"]))
+            if covered != set(range(off, off + want_size)) and not discs:
+                discs.append(Disc(f"{c['op']}.address.{kind_of(a)}", f"{s}: {len(cmds)} commands cover bytes {min(covered)}..{max(covered)} ({len(covered)} bytes) of the file, "
+                                                                  f"the request addresses bytes {off}..{off + want_size - 1}"))
         if c["op"] == "read":
             ct = a.get("ct")
             raw = before[off:off + es * count]
@@ -155,8 +168,8 @@ def check_op(c):
                 fmt = {"F": "<f", "L": "<i"}.get(a["ft"], "<h")
                 for i, x in enumerate(vals):
                     struct.pack_into(fmt, model, off + i * es, x)
-                if r.get("mask") != 0xFFFF:
-                    discs.append(Disc("write.mask.word", f"{s}: mask {r.get('mask')}"))
+                if any(x.get("mask") != 0xFFFF for x in cmds):
+                    discs.append(Disc("write.mask.word", f"{s}: mask {[x.get('mask') for x in cmds]}"))
             if not tag:
                 discs.append(Disc(f"write.falsy.{kind_of(a)}", f"{s} <- {v!r}: {tag!r}"[:400]))
             elif after != bytes(model):
